@@ -186,3 +186,23 @@ func (P *Prog) proveGE0(t *Term, fs factSet) bool {
 func tSub(a, b *Term) *Term { return &Term{Op: "binop", S: "-", Args: []*Term{a, b}} }
 
 var _ = sort.Strings
+
+// simplifyLin: a linear form with a single atom (and no constant) back as a
+// term: the atom, or atom*k. nil when the form is not that simple.
+func simplifyLin(l *lin) *Term {
+	if l.c != 0 || len(l.co) != 1 {
+		if len(l.co) == 0 {
+			return tInt(l.c)
+		}
+		return nil
+	}
+	for a, k := range l.co {
+		switch {
+		case k == 1:
+			return l.at[a]
+		case k > 1:
+			return &Term{Op: "binop", S: "*", Args: []*Term{l.at[a], tInt(k)}}
+		}
+	}
+	return nil
+}
